@@ -108,10 +108,10 @@ def r1(ctx):
                 for t, v in pairs:
                     if isinstance(t, ast.Attribute) and t.attr == "parent":
                         pstores.append((n, v))
-    ok = len(walks) == 1 and bool(pstores)
+    ok = (None if not walks else (len(walks) == 1 and bool(pstores)))
     for n, v in pstores:
         okv = isinstance(v, ast.Name) and v.id in root_names
-        okpos = len(walks) == 1 and fcfg.dominates(fcfg.node_of(walks[0][0]), fcfg.node_of(n)) and not any(x is n for x in ast.walk(walks[0][0]))
+        okpos = (None if not walks else (len(walks) == 1 and fcfg.dominates(fcfg.node_of(walks[0][0]), fcfg.node_of(n)) and not any(x is n for x in ast.walk(walks[0][0]))))
         ok = ok and okv and okpos
     ctx.ob(f.qual, "compression-points-to-the-root", ok, f.loc(), "path compression only re-points nodes to the root found by the completed upward walk" if ok else "_find_node assigns a .parent that is not the terminated root")
     rets = [n for n in walk_function(f.node) if isinstance(n, ast.Return)]
@@ -129,7 +129,7 @@ def r1(ctx):
     ctx.ob(f.qual, "returns-the-root", ok and len(walks) == 1, f.loc(), "_find_node walks parent links until None and returns that node" if ok and walks else "_find_node does not return the node whose parent is None")
     fd = ctx.func(G + ".find")
     rets = [n for n in walk_function(fd.node) if isinstance(n, ast.Return)]
-    ok = len(rets) == 1 and u(rets[0].value) == "self._find_node(%s).value" % util.params_of(fd.node)[1]
+    ok = (None if not rets else (len(rets) == 1 and u(rets[0].value) == "self._find_node(%s).value" % util.params_of(fd.node)[1]))
     ctx.ob(fd.qual, "find-returns-root-value", ok, fd.loc(), "find(x) is the value of x's root" if ok else "find does not return _find_node(x).value")
 
 
@@ -154,8 +154,8 @@ def _anchor_form(ctx, fc, cfg, read_loop, readv, het_p):
     none_inits = [s_ for s_, v in inits if isinstance(v, ast.Constant) and v.value is None]
     sets = [s_ for s_, v in inits if isinstance(v, ast.AST) and not (isinstance(v, ast.Constant) and v.value is None)]
     # per read: initialised to None inside the read loop, before the variant loop
-    ok_init = len(none_inits) == 1 and none_inits[0].parent is read_loop and cfg.dominates(cfg.node_of(none_inits[0]), cfg.node_of(vl))
-    ok_set = len(sets) == 1 and u(util.resolve_locals(fc.node, sets[0].value, scope=vl)) == pos_txt and any(x is sets[0] for x in ast.walk(vl))
+    ok_init = (None if not none_inits else (len(none_inits) == 1 and none_inits[0].parent is read_loop and cfg.dominates(cfg.node_of(none_inits[0]), cfg.node_of(vl))))
+    ok_set = (None if not sets else (len(sets) == 1 and u(util.resolve_locals(fc.node, sets[0].value, scope=vl)) == pos_txt and any(x is sets[0] for x in ast.walk(vl))))
     ga_set = util.resolved_guard_atoms(cfg, fc.node, cfg.node_of(sets[0]), keep=(A,), scope=vl) if ok_set else set()
     ga_m = util.resolved_guard_atoms(cfg, fc.node, cfg.node_containing(m), keep=(A,), scope=vl)
     ok_anchor = ok_init and ok_set and ("None is %s" % A, True) in ga_set and ("None is %s" % A, False) in ga_m and pos_txt == "%s.position" % var
@@ -194,7 +194,7 @@ def r2(ctx):
     params = util.params_of(fc.node)
     pp, reads_p, mb_p, het_p = params[:4]
     cf = [v for s, v in util.assignments_to(fc.node, "component_finder") if isinstance(v, ast.AST)]
-    ok = len(cf) == 1 and u(cf[0]) == "ComponentFinder(%s)" % pp
+    ok = (None if not cf else (len(cf) == 1 and u(cf[0]) == "ComponentFinder(%s)" % pp))
     ctx.ob(fc.qual, "finder-over-phased-positions", ok, fc.loc(), "the union-find is initialised with exactly the phased positions" if ok else "ComponentFinder is not built from %s" % pp)
     sdef = util.single_def(fc.node, "phased_positions_set")
     ok = sdef is not None and u(sdef) == "set(%s)" % pp
@@ -270,7 +270,7 @@ def r2(ctx):
         probs = util.check_loop_conservation(cfg, rl[0], lambda n: n == mnode or n in short)
         ctx.ob(fc.qual, "every-read-contributes-its-links", not probs, fc.loc(rl[0]), "every read of the set reaches the merge loop (no read is skipped, the read loop has no early exit)" if not probs else "a read can be skipped before its positions are merged: variants it links end up in different phase sets", cfg.describe_path(probs[0][1]) if probs else None)
     mbm = [c for c in merges if "master_block" in u(c) or mb_p in u(c)]
-    ok = len(mbm) == 1 and ("None is %s" % mb_p, False) in guard_atoms(cfg, cfg.node_containing(mbm[0]))
+    ok = (None if not mbm else (len(mbm) == 1 and ("None is %s" % mb_p, False) in guard_atoms(cfg, cfg.node_containing(mbm[0]))))
     ctx.ob(fc.qual, "master-block-merged-when-given", ok, fc.loc(mbm[0]) if mbm else fc.loc(), "the master block is merged into one component whenever it is given" if ok else "master block merge is not guarded by `master_block is not None`")
     cd = util.single_def(fc.node, "components")
     ok = cd is not None and isinstance(cd, ast.DictComp) and u(cd.generators[0].iter) == "phased_positions_set" and not cd.generators[0].ifs and u(cd.key) == u(cd.generators[0].target) and u(cd.value) == "component_finder.find(%s)" % u(cd.key)
@@ -294,7 +294,7 @@ def r3(ctx):
     ok = len(names) == 1
     reads = list(names)[0] if ok else None
     defs = [v for _, v in util.assignments_to(run.node, reads)] if ok else []
-    okd = len(defs) == 1 and isinstance(defs[0], ast.Call) and u(defs[0].func) == "merge_readsets" and u(defs[0].args[0]) == "readsets"
+    okd = (None if not defs else (len(defs) == 1 and isinstance(defs[0], ast.Call) and u(defs[0].func) == "merge_readsets" and u(defs[0].args[0]) == "readsets"))
     ctx.ob(run.qual, "one-read-set-for-all-solvers", ok and okd, run.loc(), "all three solvers are built from `%s = merge_readsets(readsets)`" % reads if ok and okd else "solvers are built from %s" % sorted(names))
     coc = [c for c in ctx.prog.calls_in(run.node) if u(c.func) == "compute_overall_components"]
     ctx.require(len(coc) == 1, "compute_overall_components call not found")
@@ -304,11 +304,11 @@ def r3(ctx):
     ctx.ob(run.qual, "components-from-the-solvers-reads", ok, run.loc(coc[0]), "components are computed from the same read set the solver phased" if ok else "compute_overall_components gets %s, the solver %s" % (amap.get("all_reads"), reads))
     oc = ctx.func(PH + ".compute_overall_components")
     fcs = [c for c in ctx.prog.calls_in(oc.node) if u(c.func) == "find_components"]
-    ok = len(fcs) == 1 and [u(a) for a in fcs[0].args[:2]] == ["accessible_positions", "all_reads"]
+    ok = (None if not fcs else (len(fcs) == 1 and [u(a) for a in fcs[0].args[:2]] == ["accessible_positions", "all_reads"]))
     ctx.ob(oc.qual, "find-components-gets-those-reads", ok, oc.loc(fcs[0]) if fcs else oc.loc(), "find_components(accessible_positions, all_reads, ...)" if ok else "find_components is not called with the accessible positions and the solver's reads")
     # readsets[sample] is the selected read set of that sample; merge_readsets adds every read
     st = [s for s in util.store_sites(run.node) if s.kind == "subscript" and u(s.target.value) == "readsets"]
-    ok = len(st) == 1 and u(st[0].target.slice) == "sample" and u(st[0].value) == "selected_reads"
+    ok = (None if not st else (len(st) == 1 and u(st[0].target.slice) == "sample" and u(st[0].value) == "selected_reads"))
     ctx.ob(run.qual, "readsets-hold-the-selected-reads", ok, run.loc(st[0].stmt) if st else run.loc(), "readsets[sample] = the reads selected for that sample" if ok else "readsets[sample] is not the selected read set")
     mr = ctx.func(PH + ".merge_readsets")
     mcfg = ctx.cfg(mr)
@@ -321,7 +321,7 @@ def r3(ctx):
     ctx.ob(mr.qual, "merge-keeps-every-read", ok, mr.loc(), "merge_readsets adds every read of every sample" if ok else "merge_readsets can drop a read")
     # positions the solver knows == positions components are computed for
     ap = [(s, v) for s, v in util.assignments_to(run.node, "accessible_positions") if isinstance(v, ast.AST)]
-    ok = len(ap) == 2 and u(ap[0][1]) == "sorted(%s.get_positions())" % reads
+    ok = (None if not ap else (len(ap) == 2 and u(ap[0][1]) == "sorted(%s.get_positions())" % reads))
     ctx.ob(run.qual, "accessible-positions-from-those-reads", ok, run.loc(ap[0][0]) if ap else run.loc(), "accessible positions are the positions covered by the solver's reads" if ok else "accessible_positions is not sorted(all_reads.get_positions())")
 
 
@@ -361,7 +361,7 @@ def r4(ctx):
     none0 = [(s, v) for s, v in defs if isinstance(v, ast.Constant) and v.value is None]
     ctx.ob(oc.qual, "no-master-block-by-default", len(none0) == 1, oc.loc(), "master_block starts as None" if none0 else "master_block has no None default")
     fcs = [c for c in ctx.prog.calls_in(oc.node) if u(c.func) == "find_components"]
-    ok = len(fcs) == 1 and len(fcs[0].args) >= 3 and u(fcs[0].args[2]) == "master_block"
+    ok = (None if not fcs else (len(fcs) == 1 and len(fcs[0].args) >= 3 and u(fcs[0].args[2]) == "master_block"))
     ctx.ob(oc.qual, "master-block-passed-on", ok, oc.loc(), "the master block is the third argument of find_components" if ok else "master_block is not passed to find_components")
     aps = util.single_def(oc.node, "accessible_positions_set")
     ok = aps is not None and u(aps) == "set(accessible_positions)"
@@ -418,7 +418,7 @@ def r5(ctx):
     ps = ctx.func(w + "._set_PS")
     comp = util.params_of(ps.node)[2]
     st = [s for s in util.store_sites(ps.node) if s.kind == "subscript" and util.const_key(s.target) == "PS"]
-    ok = len(st) == 1 and linear(st[0].value) == {comp: 1, "": 1}
+    ok = (None if not st else (len(st) == 1 and linear(st[0].value) == {comp: 1, "": 1}))
     ctx.ob(ps.qual, "PS-is-component-plus-1", ok, ps.loc(), "PS = component + 1" if ok else "PS is %s" % (u(st[0].value) if st else "?"))
     hp = ctx.func(w + "._set_HP")
     compp = util.params_of(hp.node)[2]
@@ -431,11 +431,11 @@ def r5(ctx):
     ctx.ob(hp.qual, "HP-block-is-component-plus-1", ok, hp.loc(), "HP block id = component + 1" if ok else "HP block id is not component + 1")
     for f in (ps, hp):
         hs = [s for s in util.store_sites(f.node) if s.kind == "subscript" and util.const_key(s.target) == "HS"]
-        ok = len(hs) == 1 and isinstance(hs[0].value, ast.ListComp) and linear(hs[0].value.elt) == {u(hs[0].value.generators[0].target): 1, "": 1}
+        ok = (None if not hs else (len(hs) == 1 and isinstance(hs[0].value, ast.ListComp) and linear(hs[0].value.elt) == {u(hs[0].value.generators[0].target): 1, "": 1}))
         ctx.ob(f.qual, "HS-is-component-plus-1", ok, f.loc(), "HS entries = haploid component + 1" if ok else "HS entries are not component + 1")
     wr = ctx.func(w + ".write")
     setter = [c for c in ctx.prog.calls_in(wr.node) if u(c.func) == "self._set_phasing_tags"]
-    ok = len(setter) == 1 and [u(a) for a in setter[0].args[:3]] == ["call", "components[pos]", "phases[pos]"]
+    ok = (None if not setter else (len(setter) == 1 and [u(a) for a in setter[0].args[:3]] == ["call", "components[pos]", "phases[pos]"]))
     posd = util.single_def(wr.node, "pos")
     ok = ok and posd is not None and u(posd) == "record.start"
     ctx.ob(wr.qual, "component-looked-up-by-0-based-start", ok, wr.loc(), "the component written for a record is components[record.start] (0-based), so PS = leftmost position + 1 = its POS" if ok else "setter arguments / pos definition changed")
